@@ -28,3 +28,17 @@ Theorem C05_parts_classified : forall flags b p parts,
   parts <> [] /\ all_but_last_dironly parts /\ Forall (part_ok (mk_gscfg flags b)) parts.
 Proof. exact gsplit_parts. Qed.
 Print Assumptions C05_parts_classified.
+
+(* ---- the whole walk ------------------------------------------------------------------------------------------------------
+   For every listing oracle, part matcher, configuration, fuel, starting directory and list of parts: when the walker
+   model returns (it does whenever the fuel exceeds tree depth + pattern length), a hit is in its result exactly when it
+   is a GlobWhole.Matches: a plain part picks an entry of the current directory its matcher accepts (directory parts are
+   continued below it with the next part), a `**` part picks any directory reachable through non-hidden directories
+   that are not links - unless FOLLOW / `***` - and applies the following part there (or, last, yields every non-hidden
+   entry).  Nothing else is returned, nothing of that is missing. *)
+From WC.Proofs Require GlobWhole.
+Theorem C05_whole_walk : forall scandir segmatch cf fuel curdir p rest hits,
+  glob_parts scandir segmatch cf fuel curdir p rest = Some hits ->
+  forall h, In h hits <-> GlobWhole.Matches scandir segmatch cf curdir p rest h.
+Proof. exact GlobWhole.glob_parts_spec. Qed.
+Print Assumptions C05_whole_walk.
